@@ -519,6 +519,84 @@ def s1_soap(run):
                   "decoder for %r expects %r" % (mtv, tags), f.loc())
 
 
+def i1_no_template_sinks(run):
+    run.rule("I1", "message text, RelayState and destinations are never used "
+             "as a template: not as a regular-expression replacement string, "
+             "not as a %-format or str.format format string")
+    m = run.model
+    funcs = []
+    for modname in ("pack", "soap", "httpbase"):
+        mi = m.module(modname)
+        funcs += [fi for fi in m.funcs.values() if fi.module == mi.name]
+    funcs += [m.func("entity.Entity.apply_binding"),
+              m.func("entity.Entity.unravel")]
+    n = 0
+    for fi in funcs:
+        params = set(fi.params()) - {"self", "cls"}
+        if not params:
+            continue
+        cfg = cfg_of(fi, m)
+        org = Origins(cfg, transparent={
+            "escape": None, "quote": None, "urlencode": None,
+            "split": "recv", "rsplit": "recv", "splitlines": "recv",
+            "replace": "recv", "lstrip": "recv", "rstrip": "recv",
+            "partition": "recv", "rpartition": "recv", "ljust": "recv"})
+
+        def tainted(expr, nid):
+            return sorted(a.text for a in org.of(expr, nid)
+                          if a.kind == "param" and a.text in params)
+        for nd in cfg.stmt_nodes():
+            for root in cfg.own_exprs(nd):
+                for c in walk_no_nested(root):
+                    if isinstance(c, ast.Call) and call_name(c) in (
+                            "sub", "subn", "expand"):
+                        # re.sub(pat, repl, s) / compiled.sub(repl, s)
+                        tg = m.resolve_expr_all(m.modules[fi.module], c.func)
+                        is_re = any(t.startswith("re.") for t in tg)
+                        repl = None
+                        if is_re and len(c.args) >= 2:
+                            repl = c.args[1]
+                        elif not is_re and c.args:
+                            repl = c.args[0]
+                        repl = arg_of(c, None, "repl") or repl
+                        if repl is None or isinstance(repl, ast.Lambda):
+                            continue
+                        n += 1
+                        t = tainted(repl, nd.id)
+                        escaped = isinstance(repl, ast.Call) and \
+                            call_name(repl) == "escape"
+                        run.check(not t or escaped, "I1",
+                                  "%s::%s" % (fi.qual, norm_text(c)[:60]),
+                                  "replacement string is not caller data",
+                                  "%s is used as a regular-expression "
+                                  "replacement template: backslash sequences "
+                                  "and group references inside the message are "
+                                  "interpreted (the packed message differs from "
+                                  "the original)" % t, fi.loc(c))
+                    if isinstance(c, ast.BinOp) and isinstance(c.op, ast.Mod) \
+                            and not isinstance(c.left, ast.Constant):
+                        n += 1
+                        t = tainted(c.left, nd.id)
+                        run.check(not t, "I1", "%s::%s" % (fi.qual,
+                                                           norm_text(c)[:60]),
+                                  "format string is not caller data",
+                                  "%s is used as a %%-format string" % t,
+                                  fi.loc(c))
+                    if isinstance(c, ast.Call) and call_name(c) == "format" \
+                            and isinstance(c.func, ast.Attribute) and \
+                            not isinstance(c.func.value, ast.Constant):
+                        n += 1
+                        t = tainted(c.func.value, nd.id)
+                        run.check(not t, "I1", "%s::%s" % (fi.qual,
+                                                           norm_text(c)[:60]),
+                                  "format string is not caller data",
+                                  "%s is used as a str.format template" % t,
+                                  fi.loc(c))
+    run.count("I1.template sinks examined", n)
+    run.holds("I1", "binding-layer", "%d replacement/format sinks examined in "
+              "%d functions" % (n, len(funcs)), "src/saml2_tophat/pack.py")
+
+
 def check(run):
     run.explanation = (
         "C14: classified inventory of markup templates, html.escape on every "
@@ -536,3 +614,4 @@ def check(run):
     p1_pairing(run)
     p2_raw_deflate(run)
     s1_soap(run)
+    i1_no_template_sinks(run)
